@@ -33,6 +33,7 @@ fn main() {
         .unwrap_or(0);
     if code >= 1000 {
         unsafe {
+            libc::signal(code - 1000, libc::SIG_DFL);
             libc::kill(libc::getpid(), code - 1000);
         }
         std::thread::sleep(std::time::Duration::from_secs(5));
